@@ -6,6 +6,11 @@ Tie to the code:
   * WHICH pieces each constructor plugs together, the lifting to n dimensions, the accessors and the mixture
     (log_softmax / logsumexp) are hand models (Model/Families.lean) — `corr` runs them at Float against the real
     objects (private `_log_prob`, public `log_prob`, accessors, `_sample`, `_sample_and_log_prob`, constructor guards);
+  * MultivariateNormal: the hand model `Families.mvn` (generated `Transformed` over the hand model of `TriangularAffine`'s
+    constructor) is fed with `jnp.linalg.cholesky(covariance)` and compared with the real `MultivariateNormal(loc, covariance)`
+    (`_log_prob`, public `log_prob`, `.loc`, `.covariance`, `_sample`, `_sample_and_log_prob`, constructor guard on `loc`);
+  * VmapMixture sampling: the harness recomputes `jr.split` / `jr.categorical` / the selected component's base sample and the
+    model (`Families.vmapMixture`) must reproduce `_sample(key)` and `_sample_and_log_prob(key)` of the real mixture;
   * `search` is the property's own oracle on the real code only: scipy.stats in float64.
 
 Points of discontinuity of the density (Uniform at maxval, where `(x - minval) / softplus(softplus_inv(maxval - minval))`
@@ -29,27 +34,36 @@ import vlib
 from vlib import f2b, fs2b, b2f, b2fs
 
 ID = "C05"
-GEN = ["Dist", "Leaves", "Combinators"]
+GEN = ["Dist", "Leaves", "Combinators", "Params"]
 RULE = ("9 families (Normal, LogNormal, Uniform, Gumbel, Cauchy, StudentT, Laplace, Exponential, Logistic) x parameter arrays of every "
         "broadcastable shape (scalar / vector / matrix, parameters broadcasting against each other) x points inside, on the edge of and "
         "outside the support, +-inf and batched points: model `_log_prob` and public `log_prob` (NaN -> -inf) vs the real ones, special-value "
         "classes exactly; accessors vs the model and vs the constructor's arguments; `_sample`/`_sample_and_log_prob` vs the model on the base "
         "sample; constructor guards; VmapMixture of 2-4 Normal / StudentT / Uniform components (scalar and vector) with unnormalised and "
-        "rescaled weights. non-trivial = edge / outside / non-finite point, or parameters that broadcast; distinct = distinct "
+        "rescaled weights; MultivariateNormal in dimensions 1-4 (thorough: 1-6) with random / diagonal / ill-conditioned / strongly "
+        "correlated / tiny- and huge-scale SPD covariances, vector, scalar and shape-(1,) loc, points near the mean, in the far tails "
+        "and with an infinite coordinate; VmapMixture `_sample` / `_sample_and_log_prob` on real keys. non-trivial = edge / outside / "
+        "non-finite point, or parameters that broadcast, or any MultivariateNormal / mixture-sampling case; distinct = distinct "
         "(family, parameter shapes, parameters, point)")
 TRUSTED = [
     "Lean 4.33 kernel; Mathlib v4.33; axioms propext, Classical.choice, Quot.sound",
     "py2lean translator + typing sheets targets_dist.py / targets_leaves.py / targets_comb.py (validated by this correspondence)",
     "Prelude/Stats.lean specs of jax.scipy.stats.{norm,uniform,cauchy,laplace,expon,logistic,t}.logpdf and Prelude/Jnp.lean primitives (validated here at Float)",
     "HasLgamma Float = Lanczos approximation (validated here against jax gammaln through StudentT)",
-    "Model/Families.lean (constructor wiring, lifting to n dimensions, accessors, logsumexp/log_softmax/mixture: hand models validated here); Model/Ctors.lean",
-    "theorems are over the reals (log Gamma = Real.log (Real.Gamma x)); IEEE rounding, -inf and NaN are measured by the correspondence, not proved",
+    "Model/Families.lean (constructor wiring, lifting to n dimensions, accessors, logsumexp/log_softmax/mixture, MultivariateNormal wiring, "
+    "mixture component selection: hand models validated here); Model/Ctors.lean; Model/Triangular.lean + Model/Params.lean (TriangularAffine and its constructor)",
+    "jnp.linalg.cholesky is a numerical primitive: the model takes its output as the parameter (theorems assume a lower-triangular factor with positive diagonal)",
+    "the laws of the jax.random primitives (normal, uniform, gumbel, cauchy, t, laplace, exponential, logistic, categorical; independence of the halves of jr.split): "
+    "every _Standard*._sample is exactly one such call; the sample-law theorems push these laws through the code's bijections",
+    "theorems are over the reals (log Gamma = Real.log (Real.Gamma x)) and over EF (reals + +-inf + NaN with IEEE special-value rules, exact finite arithmetic) for "
+    "'-inf outside the support, never NaN'; IEEE rounding, overflow and underflow are measured by the correspondence, not proved",
 ]
 ASSUMPTIONS = [
-    "the PRNG is JAX's: the model's key is the base sample; 'samples follow the density' is proved for Normal as a push-forward of Mathlib's gaussianReal, "
-    "for the other families as sample = bijection(base sample) + sample_and_log_prob consistency, and measured by a KS statistic in the witness search",
-    "MultivariateNormal (TriangularAffine over a Cholesky factor) has no Lean model: it is covered by the scipy oracle in `search` only",
-    "over the reals the theorems are stated on the support (Real.log 0 = 0 is not -inf); -inf outside the support and the NaN -> -inf line are checked at Float here",
+    "the PRNG is JAX's: the model's key is the base sample (mixtures: categorical draw + base sample); 'samples follow the density' is proved as a push-forward "
+    "of the primitive's law for every family, MultivariateNormal and mixtures, and measured by a KS statistic in the witness search",
+    "MultivariateNormal: the model's parameter is the Cholesky factor (the factorisation itself is JAX's); model-vs-implementation tolerance is scaled by cond(L)",
+    "over the reals the theorems are stated on the support (Real.log 0 = 0 is not -inf); -inf outside the support and the NaN -> -inf line are proved for the EF "
+    "instantiation of the same definitions and checked at Float here",
     "at the upper edge of Uniform the comparison uses an input tolerance of max(16 ulps, 4e-11 * width) (the scale's softplus round trip is not exact in floating point, and Prelude's Float expm1 is less accurate than libm's)",
 ]
 TOL = dict(rtol=1e-8, atol=1e-9)
@@ -334,6 +348,8 @@ def corr(c, tier, rng):
         c.notes.append(f"real Uniform.log_prob at x == maxval exactly: -inf in {edge_real['neg_inf']} of {edge_real['n']} parameter draws "
                        f"(floating-point rounding of (x - minval) / softplus(softplus_inv(maxval - minval)); scipy gives -log(maxval - minval)); examples: {edge_real['examples']}")
     mixture_corr(c, tier, rng)
+    mvn_corr(c, tier, rng)
+    mixsample_corr(c, tier, rng)
 
 
 def raises(f):
@@ -457,6 +473,215 @@ def mixture_corr(c, tier, rng):
             c.mismatch("constructor-guard", family="VmapMixture", weights=ws, model=got, impl="REJ" if r else "ACC")
 
 
+
+# ------------------------------------------------------------------ MultivariateNormal (model fed with jnp.linalg.cholesky(cov))
+COV_KINDS = ["random", "diagonal", "illcond", "correlated", "tiny", "huge", "identity"]
+
+
+def rand_orth(rng, dim):
+    a = np.asarray([[rng.gauss(0, 1) for _ in range(dim)] for _ in range(dim)])
+    q, r = np.linalg.qr(a)
+    return q * np.sign(np.diag(r))
+
+
+def rand_cov(rng, dim, kind):
+    """symmetric positive-definite matrix of the requested kind (float64, exactly symmetric)"""
+    if kind == "random":
+        cov = rand_spd(rng, dim)
+    elif kind == "diagonal":
+        cov = np.diag([math.exp(rng.uniform(-4, 4)) for _ in range(dim)])
+    elif kind == "illcond":
+        q = rand_orth(rng, dim)
+        ev = np.geomspace(1.0, 10.0 ** (-rng.choice([4, 6, 8, 10])), dim) if dim > 1 else np.asarray([1e-8])
+        cov = (q * ev) @ q.T
+    elif kind == "correlated":
+        rho = rng.choice([0.99, 0.999, -0.995])
+        sd = np.asarray([math.exp(rng.uniform(-1, 1)) for _ in range(dim)])
+        corr = np.full((dim, dim), rho if rho > 0 else 0.0) + (1 - (rho if rho > 0 else 0.0)) * np.eye(dim)
+        if rho < 0 and dim >= 2:
+            corr[0, 1] = corr[1, 0] = rho
+        cov = corr * np.outer(sd, sd)
+    elif kind == "tiny":
+        cov = rand_spd(rng, dim) * 1e-8
+    elif kind == "huge":
+        cov = rand_spd(rng, dim) * 1e8
+    elif kind == "identity":
+        cov = np.eye(dim)
+    else:
+        raise AssertionError(kind)
+    return (cov + cov.T) / 2
+
+
+def rand_mvn_loc(rng, dim):
+    """(constructor argument, broadcast vector, label)"""
+    r = rng.random()
+    if r < 0.65:
+        v = [rng.uniform(-3, 3) for _ in range(dim)]
+        return np.asarray(v), np.asarray(v), "vector"
+    if r < 0.85:
+        l = rng.uniform(-3, 3)
+        return np.asarray(l), np.full(dim, l), "scalar"
+    l = rng.uniform(-3, 3)
+    return np.asarray([l]), np.full(dim, l), "shape(1,)"
+
+
+def mvn_points(rng, locv, L):
+    """[(label, x, compare_private)]: near the mean, far tails, on an axis, with an infinite coordinate"""
+    dim = len(locv)
+    pts = [("mean", locv.copy(), True)]
+    for lab, r in (("near", 1.0), ("near", 2.5), ("tail", 40.0), ("far-tail", 1e3), ("far-tail", 1e6)):
+        z = np.asarray([rng.gauss(0, 1) for _ in range(dim)]) * r
+        pts.append((lab, locv + L @ z, True))
+    e = np.zeros(dim)
+    e[rng.randrange(dim)] = rng.choice([-1.0, 1.0]) * 50.0 * math.sqrt(float(np.max(np.diag(L @ L.T))))
+    pts.append(("axis", locv + e, True))
+    pts.append(("raw", np.asarray([rng.gauss(0, 3) for _ in range(dim)]), True))
+    xi = locv.copy()
+    xi[rng.randrange(dim)] = rng.choice([math.inf, -math.inf])
+    pts.append(("inf-coordinate", xi, False))
+    return pts
+
+
+def mvn_corr(c, tier, rng):
+    quick = tier == "quick"
+    dims = [1, 2, 3, 4] if quick else [1, 2, 3, 4, 5, 6]
+    reps = 1 if quick else 6
+    lines, checks = [], []
+    worst = 0.0
+    for dim in dims:
+        for kind in COV_KINDS:
+            for rep in range(reps):
+                cov = rand_cov(rng, dim, kind)
+                loc_arg, locv, loclab = rand_mvn_loc(rng, dim)
+                L = np.asarray(jnp.linalg.cholesky(jnp.asarray(cov)))
+                if not np.all(np.isfinite(L)):
+                    c.count("mvn:cholesky-not-finite (skipped)")
+                    continue
+                condL = float(np.linalg.cond(L))
+                mv = D.MultivariateNormal(jnp.asarray(loc_arg), jnp.asarray(cov))
+                um = unwrap(mv)
+                tol = dict(rtol=1e-9 + 4e-14 * condL, atol=1e-9 + 4e-14 * condL)
+                loc_txt = fs2b(np.atleast_1d(loc_arg))
+                ltxt = fs2b(L.ravel())
+                base = dict(dim=dim, kind=kind, loc=np.atleast_1d(loc_arg).tolist(), loc_kind=loclab, cov=cov.tolist(), chol=L.tolist(), cond_chol=condL)
+                sigp = ("mvn", dim, kind, tuple(np.atleast_1d(loc_arg).tolist()), tuple(cov.ravel().tolist()))
+                # ---- log_prob
+                for label, x, cmp_priv in mvn_points(rng, locv, L):
+                    want = real_lps(mv, x)
+                    if not cmp_priv:
+                        want = [None, want[1]]
+                    lines.append(f"mvn lp {dim} {loc_txt} {ltxt} {fs2b(x)}")
+                    checks.append(("mvn-log_prob-vs-impl", want, dict(base, x=x.tolist(), point=label), tol))
+                    c.case(sigp + (tuple(x.tolist()),), True, sample={"op": lines[-1][:200], "impl": want} if (rep == 0 and label == "tail" and kind == "illcond") else None)
+                    c.count(f"mvn:dim={dim}:{kind}:{label}")
+                    if isinstance(want[1], float) and math.isnan(want[1]):
+                        c.mismatch("public-log_prob-is-never-nan", impl=want, **base)
+                # ---- accessors: vs the model, and vs the constructor's arguments
+                got_loc = np.asarray(mv.loc)
+                got_cov = np.asarray(mv.covariance)
+                kappa = float(np.linalg.cond(cov))
+                if got_loc.shape != (dim,) or not np.array_equal(got_loc, locv):
+                    c.mismatch("accessor-vs-constructor-argument", accessor="loc", impl=got_loc.tolist(), want=locv.tolist(), **base)
+                if got_cov.shape != (dim, dim) or not np.allclose(got_cov, cov, rtol=1e-13 * max(kappa, 1.0) + 1e-12, atol=1e-14 * float(np.max(np.abs(cov))) * max(kappa, 1.0)):
+                    c.mismatch("accessor-vs-constructor-argument", accessor="covariance", impl=got_cov.tolist(), want=cov.tolist(), **base)
+                lines.append(f"mvn acc {dim} {loc_txt} {ltxt}")
+                checks.append(("mvn-accessor-vs-impl", [got_loc.tolist(), got_cov.ravel().tolist()], base, dict(rtol=1e-11, atol=1e-13 * float(np.max(np.abs(cov))))))
+                c.case(sigp + ("acc",), True)
+                c.count(f"mvn:dim={dim}:{kind}:accessor")
+                # ---- the stored triangular matrix is the Cholesky factor
+                tri = np.asarray(um.bijection.triangular)
+                if not np.allclose(tri, L, rtol=1e-12, atol=0):
+                    c.mismatch("mvn-stored-triangular-vs-cholesky", impl=tri.tolist(), **base)
+                # ---- samplers on the base sample
+                key = jr.PRNGKey(rng.randrange(2 ** 31))
+                z = np.asarray(um.base_dist._sample(key))
+                s = np.asarray(um._sample(key))
+                s2, lp2 = um._sample_and_log_prob(key)
+                lines.append(f"mvn s {dim} {loc_txt} {ltxt} {fs2b(z)}")
+                checks.append(("mvn-sampler-vs-impl", [s.tolist(), np.asarray(s2).tolist(), float(lp2)], dict(base, z=z.tolist()), tol))
+                c.case(sigp + ("s", tuple(z.tolist())), True)
+                c.count(f"mvn:dim={dim}:{kind}:sample")
+    # ---- constructor guard: loc must broadcast to (dim,)
+    for loc, dim in (([1.0, 2.0, 3.0], 2), ([1.0, 2.0], 3), ([0.5], 3), ([0.5, 0.25], 2)):
+        r = raises(lambda: D.MultivariateNormal(jnp.asarray(loc), jnp.eye(dim) * 2.0).loc)
+        lines.append(f"mvn lp {dim} {fs2b(loc)} {fs2b((math.sqrt(2.0) * np.eye(dim)).ravel())} {fs2b([0.1] * dim)}")
+        checks.append(("constructor-guard", "REJ" if r else "ACC", dict(family="MultivariateNormal", loc=loc, dim=dim), None))
+        c.case(("mvnguard", tuple(loc), dim), True)
+    outs = vlib.run_model(lines)
+    for line, out, (name, want, info, tol) in zip(lines, outs, checks):
+        if name == "constructor-guard":
+            if (out == "REJ") != (want == "REJ"):
+                c.mismatch(name, op=line[:300], model=out, impl=want, **info)
+            continue
+        if out.startswith("ERR") or out == "REJ":
+            c.mismatch(name, op=line[:300], model=out, impl=want, **info)
+            continue
+        got = [b2fs(t) for t in out.split(" ")]
+        if name == "mvn-log_prob-vs-impl":
+            g = [got[0][0], got[1][0]]
+            ok = all(w is None or (not isinstance(w, str) and vlib.close(a, w, **tol)) for a, w in zip(g, want))
+            if ok and want[0] is not None and math.isfinite(want[0]) and math.isfinite(g[0]):
+                worst = max(worst, abs(g[0] - want[0]) / (1 + abs(want[0])) / max(1.0, info["cond_chol"]))
+        elif name == "mvn-accessor-vs-impl":
+            ok = len(got) == 2 and vlib.allclose(got[0], want[0], rtol=1e-15, atol=0) and vlib.allclose(got[1], want[1], **tol)
+            g = got
+        else:
+            g = [got[0], got[1], got[2][0]]
+            ok = vlib.allclose(g[0], want[0], **tol) and vlib.allclose(g[1], want[1], **tol) and vlib.close(g[2], want[2], **tol)
+        if not ok:
+            c.mismatch(name, op=line[:300], model=g, impl=want, **info)
+    c.notes.append(f"MultivariateNormal: largest model-vs-implementation discrepancy of a finite log_prob, relative to (1 + |log_prob|) * cond(cholesky): {worst:.3e}")
+
+
+# ------------------------------------------------------------------ VmapMixture._sample / _sample_and_log_prob on real keys
+def mixsample_corr(c, tier, rng):
+    from jax.tree_util import tree_map
+    nmix = 10 if tier == "quick" else 60
+    nkeys = 4 if tier == "quick" else 6
+    lines, checks = [], []
+    seen_components = set()
+    for mi in range(nmix):
+        comp, k, d, params, ws = rand_mixture(rng)
+        m = build_mixture(comp, params, ws)
+        um = unwrap(m)
+        mdim = d or 1
+        ptxt = " ".join(fs2b(np.asarray(p).ravel()) for p in params)
+        for ki in range(nkeys):
+            key = jr.PRNGKey(rng.randrange(2 ** 31))
+            # what the code's formula does, recomputed here from the primitives
+            key1, key2 = jr.split(key)
+            component = int(jr.categorical(key1, um.log_normalized_weights))
+            cdist = tree_map(lambda leaf: leaf[component] if isinstance(leaf, jax.Array) else leaf, um.dist)
+            z = np.asarray(cdist.base_dist._sample(key2)).ravel()
+            s = np.asarray(um._sample(key)).ravel()
+            s2, lp2 = um._sample_and_log_prob(key)
+            # independent reading of the selected component: constructed from its own parameters
+            direct = build(comp, [np.asarray(p[component]) for p in params])
+            sd = np.asarray(unwrap(direct)._sample(key2)).ravel()
+            info = dict(comp=comp, k=k, d=d, params=[np.asarray(p).tolist() for p in params], ws=ws.tolist(), component=component, z=z.tolist())
+            if not vlib.allclose(s.tolist(), sd.tolist(), rtol=1e-12, atol=0):
+                c.mismatch("mixture-sample-vs-selected-component", impl=s.tolist(), component_sample=sd.tolist(), **info)
+            lines.append(f"mixsample {comp} {k} {d or 0} {fs2b(ws)} {ptxt} {component} {fs2b(z)}")
+            checks.append(([s.tolist(), np.asarray(s2).ravel().tolist(), float(lp2)], info))
+            c.case(("mixsample", comp, k, d, tuple(ws.tolist()), str(info["params"]), component, tuple(z.tolist())), True,
+                   sample={"op": lines[-1][:200], "impl": checks[-1][0]} if (mi == 0 and ki == 0) else None)
+            c.count(f"mixsample:{comp}:k={k}:" + ("vector" if d else "scalar"))
+            seen_components.add((mi, component))
+        # public sample_and_log_prob agrees with public log_prob at the sample (real code)
+        xs, lps = m.sample_and_log_prob(jr.PRNGKey(rng.randrange(2 ** 31)), (5,))
+        if not np.allclose(np.asarray(m.log_prob(xs)), np.asarray(lps), rtol=1e-9, atol=1e-9):
+            c.mismatch("mixture-sample_and_log_prob-vs-log_prob", impl=np.asarray(lps).tolist(), log_prob=np.asarray(m.log_prob(xs)).tolist(), comp=comp, k=k, d=d)
+    outs = vlib.run_model(lines)
+    for line, out, (want, info) in zip(lines, outs, checks):
+        if out.startswith("ERR") or out == "REJ":
+            c.mismatch("mixture-sampler-vs-impl", op=line[:300], model=out, impl=want, **info)
+            continue
+        got = [b2fs(t) for t in out.split(" ")]
+        if not (vlib.allclose(got[0], want[0], **TOL) and vlib.allclose(got[1], want[1], **TOL) and vlib.close(got[2][0], want[2], **TOL)):
+            c.mismatch("mixture-sampler-vs-impl", op=line[:300], model=[got[0], got[1], got[2][0]], impl=want, **info)
+    c.notes.append(f"VmapMixture sampling: {len(lines)} real keys over {nmix} mixtures, {len(seen_components)} distinct (mixture, selected component) pairs")
+
+
 # ------------------------------------------------------------------ scipy oracle (real code only)
 def scipy_dist(name, fp_i):
     import scipy.stats as st
@@ -565,23 +790,108 @@ def rand_spd(rng, dim):
     return a @ a.T + dim * 0.3 * np.eye(dim)
 
 
-def mvn_witness(loc, cov, xs):
-    import scipy.stats as st
+def mvn_witness(loc, cov, xs, kind="random"):
+    """exact-rational oracle for MultivariateNormal on the real code: accessors, log_prob at the given points (tolerance scaled by
+    the condition number of the covariance: the Cholesky factorisation of a float64 matrix is only backward stable), never NaN,
+    -inf at points with an infinite coordinate"""
     loc, cov = np.asarray(loc, float), np.asarray(cov, float)
-    w = dict(check="mvn", key=f"mvn|dim={cov.shape[0]}", loc=loc.tolist(), cov=cov.tolist(), x=[list(map(float, x)) for x in xs])
+    dim = cov.shape[0]
+    w = dict(check="mvn", key=f"mvn|dim={dim}|{kind}", kind=kind, loc=loc.tolist(), cov=cov.tolist(), x=[list(map(float, x)) for x in xs])
     mv = D.MultivariateNormal(jnp.asarray(loc), jnp.asarray(cov))
     kappa = float(np.linalg.cond(cov))
     got_cov = np.asarray(mv.covariance)
-    if not np.allclose(got_cov, cov, rtol=1e-10 * kappa, atol=1e-12 * kappa):
+    if got_cov.shape != (dim, dim) or not np.allclose(got_cov, cov, rtol=1e-10 * kappa, atol=1e-12 * kappa * float(np.max(np.abs(cov)))):
         return dict(w, law="covariance accessor returns the constructor's matrix", got=got_cov.tolist())
-    if not np.allclose(np.asarray(mv.loc), np.broadcast_to(loc, (cov.shape[0],)), rtol=1e-13, atol=0):
+    locv = np.broadcast_to(loc, (dim,))
+    if np.asarray(mv.loc).shape != (dim,) or not np.allclose(np.asarray(mv.loc), locv, rtol=1e-13, atol=0):
         return dict(w, law="loc accessor returns the constructor's vector", got=np.asarray(mv.loc).tolist())
-    ref = st.multivariate_normal(np.broadcast_to(loc, (cov.shape[0],)), cov)
     for x in xs:
-        got = float(mv.log_prob(jnp.asarray(x, float)))
-        want = float(ref.logpdf(np.asarray(x, float)))
-        if math.isnan(got) or abs(got - want) > 1e-9 * kappa * (1 + abs(want)):
-            return dict(w, law="MultivariateNormal.log_prob equals the textbook log-density", got=got, want=want, at=list(map(float, x)))
+        x = np.asarray(x, float)
+        got = float(mv.log_prob(jnp.asarray(x)))
+        if math.isnan(got):
+            return dict(w, law="log_prob is never NaN", got="nan", at=list(map(float, x)))
+        if not np.all(np.isfinite(x)):
+            if got != -math.inf:
+                return dict(w, law="log_prob is -inf at a point with an infinite coordinate", got=got, at=list(map(float, x)))
+            continue
+        want, quad = mvn_exact_logpdf(locv, cov, x)
+        # Cholesky of a float64 matrix is backward stable only: quadratic form and log-determinant carry a relative error ~ n eps cond(cov)
+        tol = 2e-14 * dim * kappa * (abs(quad) + dim) + 1e-9 * (1 + abs(want))
+        if vlib.fclass(got) != vlib.fclass(want) or (math.isfinite(want) and abs(got - want) > tol):
+            return dict(w, law="MultivariateNormal.log_prob equals the textbook log-density", got=got, want=want, tol=tol, at=list(map(float, x)))
+    return None
+
+
+def mvn_exact_logpdf(locv, cov, x):
+    """(-n/2 log 2pi - 1/2 log det S - 1/2 q, q) with q = (x-m)' S^-1 (x-m): the float64 inputs are exact rationals, the LDL'
+    factorisation, the triangular solve and q are computed in exact rational arithmetic; only the final logarithms are rounded"""
+    from fractions import Fraction as Fr
+    n = len(locv)
+    a = [[Fr(float(cov[i][j])) for j in range(n)] for i in range(n)]
+    r = [Fr(float(x[i])) - Fr(float(locv[i])) for i in range(n)]
+    l = [[Fr(0)] * n for _ in range(n)]
+    dd = [Fr(0)] * n
+    for j in range(n):
+        dd[j] = a[j][j] - sum(l[j][k] * l[j][k] * dd[k] for k in range(j))
+        if dd[j] <= 0:
+            return math.nan, math.nan     # not positive definite as an exact matrix
+        for i in range(j + 1, n):
+            l[i][j] = (a[i][j] - sum(l[i][k] * l[j][k] * dd[k] for k in range(j))) / dd[j]
+    y = [Fr(0)] * n
+    for i in range(n):
+        y[i] = r[i] - sum(l[i][k] * y[k] for k in range(i))
+    q = sum(y[i] * y[i] / dd[i] for i in range(n))
+    logdet = sum(math.log(d.numerator) - math.log(d.denominator) for d in dd)
+    qf = q.numerator / q.denominator if q != 0 else 0.0
+    return -0.5 * n * math.log(2 * math.pi) - 0.5 * logdet - 0.5 * qf, qf
+
+
+def mvn_ks_witness(loc, cov, seed):
+    """samples follow the density: every whitened coordinate L^-1 (x - loc) and a random projection are N(0,1) / N(a.loc, a'Sa)
+    (KS statistic against the DKW bound), and sample_and_log_prob returns log_prob at the sample"""
+    import scipy.stats as st
+    loc, cov = np.asarray(loc, float), np.asarray(cov, float)
+    dim = cov.shape[0]
+    w = dict(check="mvnks", key=f"ks|MultivariateNormal|dim={dim}", loc=loc.tolist(), cov=cov.tolist(), seed=seed)
+    mv = D.MultivariateNormal(jnp.asarray(loc), jnp.asarray(cov))
+    s = np.asarray(mv.sample(jr.PRNGKey(seed), (KS_N,)))
+    thr = math.sqrt(math.log(2 / KS_ALPHA) / (2 * KS_N))
+    if s.shape != (KS_N, dim) or not np.all(np.isfinite(s)):
+        return dict(w, law="samples are finite with the requested shape", shape=list(s.shape))
+    locv = np.broadcast_to(loc, (dim,))
+    white = np.linalg.solve(np.linalg.cholesky(cov), (s - locv).T).T
+    for j in range(dim):
+        stat = float(st.kstest(white[:, j], st.norm(0, 1).cdf).statistic)
+        if stat > thr:
+            return dict(w, law="samples follow the density (whitened coordinate is standard normal; KS above the DKW bound at 1e-9)", coordinate=j, D=stat, threshold=thr)
+    a = np.cos(np.arange(1, dim + 1) * 1.7) + 0.3
+    stat = float(st.kstest(s @ a, st.norm(float(a @ locv), math.sqrt(float(a @ cov @ a))).cdf).statistic)
+    if stat > thr:
+        return dict(w, law="samples follow the density (projection; KS above the DKW bound at 1e-9)", D=stat, threshold=thr)
+    if dim >= 2:
+        r = float(np.corrcoef(white[:, 0], white[:, 1])[0, 1])
+        if abs(r) > 6.5 / math.sqrt(KS_N):
+            return dict(w, law="whitened coordinates of the samples are uncorrelated", corr=r)
+    s2, lp2 = mv.sample_and_log_prob(jr.PRNGKey(seed + 1), (16,))
+    lp = np.asarray(mv.log_prob(s2))
+    kappa = float(np.linalg.cond(cov))
+    if not np.allclose(np.asarray(lp2), lp, rtol=1e-9 * kappa, atol=1e-9 * kappa):
+        return dict(w, law="log-prob returned with a sample equals log_prob at the sample")
+    return None
+
+
+def mix_sample_witness(comp, k, d, params, ws, seed):
+    """real code only: the log-prob returned with a mixture sample is log_prob at that sample; the sample has the shape of a component"""
+    params = [np.asarray(p, float) for p in params]
+    ws = np.asarray(ws, float)
+    w = dict(check="mixsample", key=f"mixsample|{comp}|k={k}|d={d}", comp=comp, k=k, d=d, params=[p.tolist() for p in params], ws=ws.tolist(), seed=seed)
+    m = build_mixture(comp, params, ws)
+    xs, lps = m.sample_and_log_prob(jr.PRNGKey(seed), (24,))
+    xs, lps = np.asarray(xs), np.asarray(lps)
+    if xs.shape != (24,) + (() if d is None else (d,)) or not np.all(np.isfinite(xs)):
+        return dict(w, law="mixture samples are finite with the shape of a component", shape=list(xs.shape))
+    if np.any(np.isnan(lps)) or not np.allclose(np.asarray(m.log_prob(jnp.asarray(xs))), lps, rtol=1e-9, atol=1e-9):
+        return dict(w, law="log-prob returned with a mixture sample equals log_prob at the sample")
     return None
 
 
@@ -648,6 +958,22 @@ def ks_mixture_witness(locs, scales, ws, seed):
     return None
 
 
+UNIFORM_EDGE_PAIRS = [(1.0, 3.0), (0.0, 1.0), (0.0, 2.0), (-1.0, 1.0), (2.0, 4.0), (0.0, 0.5), (-3.0, 5.0), (0.25, 0.75), (10.0, 12.0), (-2.0, -1.0)]
+
+
+def uniform_closed_edge_witness(a, b):
+    """The support is the CLOSED interval: whenever the standardised point z = bijection.inverse(x) computed by the object's own
+    (public) bijection lies in [0, 1], log_prob(x) is finite.  (The recorded known finding is the other case: z rounds above 1.)"""
+    d = D.Uniform(a, b)
+    for x in (b, a):
+        z = float(d.bijection.inverse(jnp.asarray(x, float)))
+        lp = float(d.log_prob(jnp.asarray(x, float)))
+        if 0.0 <= z <= 1.0 and not math.isfinite(lp):
+            return dict(check="uniform_closed_edge", key=f"uniform_closed_edge|{a}|{b}|{x}", minval=a, maxval=b, x=x, z=z, got=lp,
+                        law="Uniform.log_prob is -log(maxval - minval) on the closed support, including the end points (standardised point in [0, 1])")
+    return None
+
+
 def search(hints, tier, rng):
     quick = tier == "quick"
     wit = []
@@ -657,6 +983,9 @@ def search(hints, tier, rng):
             wit.append(w)
         return len(wit) >= 6
 
+    for a, b in UNIFORM_EDGE_PAIRS:
+        if push(uniform_closed_edge_witness(a, b)):
+            return wit
     reps = 1 if quick else 8
     for name, (ctor, kinds) in FAMS.items():
         for shapes in SHAPES[len(kinds)]:
@@ -682,17 +1011,29 @@ def search(hints, tier, rng):
                     if push(dict(check="exception", key=f"exception|{name}|{shapes}", family=name, shapes=[list(s) for s in shapes], exc=repr(ex)[:300])):
                         return wit
     # MultivariateNormal
-    for dim in ([1, 2, 3, 5] if quick else [1, 2, 3, 4, 5, 8, 12]):
-        for rep in range(reps):
-            cov = rand_spd(rng, dim)
-            loc = [rng.uniform(-2, 2) for _ in range(dim)] if rng.random() < 0.8 else rng.uniform(-2, 2)
-            xs = [[rng.gauss(0, 2) for _ in range(dim)] for _ in range(3)]
-            if push(mvn_witness(loc, cov, xs)):
-                return wit
+    for dim in ([1, 2, 3, 4] if quick else [1, 2, 3, 4, 5, 8, 12]):
+        for kind in COV_KINDS:
+            for rep in range(reps):
+                cov = rand_cov(rng, dim, kind)
+                loc_arg, locv, _ = rand_mvn_loc(rng, dim)
+                L = np.linalg.cholesky(cov)
+                xs = [x for _, x, _ in mvn_points(rng, locv, L)]
+                try:
+                    if push(mvn_witness(loc_arg.tolist(), cov, xs, kind)):
+                        return wit
+                except Exception as ex:
+                    if push(dict(check="exception", key=f"exception|mvn|dim={dim}|{kind}", exc=repr(ex)[:300])):
+                        return wit
+    for dim in ([1, 3] if quick else [1, 2, 3, 5]):
+        cov = rand_cov(rng, dim, "random")
+        if push(mvn_ks_witness([rng.uniform(-2, 2) for _ in range(dim)], cov, 97 + dim)):
+            return wit
     # mixtures
     for mi in range(10 if quick else 80):
         comp, k, d, params, ws = rand_mixture(rng)
         if push(mixture_witness(comp, k, d, params, ws, mixture_points(comp, k, d, params, rng), rng.choice([1e-3, 3.0, 1e4]))):
+            return wit
+        if mi < (4 if quick else 20) and push(mix_sample_witness(comp, k, d, params, ws, 700 + mi)):
             return wit
     # samplers
     for name, (ctor, kinds) in FAMS.items():
@@ -710,6 +1051,8 @@ def replay(w):
     ch = w.get("check")
     if ch == "uniform_edge":
         return float(D.Uniform(w["minval"], w["maxval"]).log_prob(w["maxval"])) == -math.inf
+    if ch == "uniform_closed_edge":
+        return uniform_closed_edge_witness(w["minval"], w["maxval"]) is not None
     if ch == "logpdf":
         shapes = [tuple(s) for s in w["shapes"]]
         params = [np.asarray(p, float).reshape(s) for p, s in zip(w["params"], shapes)]
@@ -719,7 +1062,11 @@ def replay(w):
         params = [np.asarray(p, float).reshape(s) for p, s in zip(w["params"], shapes)]
         return accessor_witness(w["family"], shapes, params) is not None
     if ch == "mvn":
-        return mvn_witness(w["loc"], w["cov"], w["x"]) is not None
+        return mvn_witness(w["loc"], w["cov"], w["x"], w.get("kind", "random")) is not None
+    if ch == "mvnks":
+        return mvn_ks_witness(w["loc"], w["cov"], w["seed"]) is not None
+    if ch == "mixsample":
+        return mix_sample_witness(w["comp"], w["k"], w["d"], w["params"], w["ws"], w["seed"]) is not None
     if ch == "mixture":
         return mixture_witness(w["comp"], w["k"], w["d"], w["params"], w["ws"], w["pts"], w["c_scale"]) is not None
     if ch == "ks":
